@@ -189,6 +189,8 @@ def _call_simplex(case):
     kw = {"minimize": case["minimize"]}
     if case["max_iter"] is not None:
         kw["max_iter"] = case["max_iter"]
+    if case.get("eps") is not None:
+        kw["eps"] = case["eps"]
     return solve_lp(list(case["c"]), [list(r) for r in case["A"]], list(case["b"]), **kw)
 
 
@@ -196,7 +198,7 @@ def run_simplex(case):
     """-> dict(status, solution, objective, iterations, pivots) or dict(fail=...)"""
     _install_trace()
     del _TRACE[:]
-    res = guarded(_call_simplex, case, timeout=10)
+    res = guarded(_call_simplex, case, timeout=case.get("timeout", 10))
     piv = list(_TRACE)
     if res[0] != "ok":
         return {"fail": list(res), "pivots": piv}
@@ -299,9 +301,18 @@ def judge_simplex(case, out, orc):
     return None
 
 
+def _oracle(case):
+    o = case.get("oracle")
+    if o:
+        from harness.props import C03_hard as H
+
+        return (H.oracle_small_n if o == "small_n" else H.exact_simplex)(case["c"], case["A"], case["b"], case["minimize"])
+    return oracle_lp(case["c"], case["A"], case["b"], case["minimize"])
+
+
 def _work(case):
     out = run_simplex(case)
-    orc = oracle_lp(case["c"], case["A"], case["b"], case["minimize"])
+    orc = _oracle(case)
     return out, orc, judge_simplex(case, out, orc)
 
 
@@ -453,7 +464,12 @@ def _install_ipm_capture():
 def _call_ipm(case):
     from solvor.interior_point import solve_lp_interior
 
-    return solve_lp_interior(list(case["c"]), [list(r) for r in case["A"]], list(case["b"]), minimize=case["minimize"])
+    kw = {}
+    if case.get("max_iter") is not None:
+        kw["max_iter"] = case["max_iter"]
+    if case.get("eps") is not None:
+        kw["eps"] = case["eps"]
+    return solve_lp_interior(list(case["c"]), [list(r) for r in case["A"]], list(case["b"]), minimize=case["minimize"], **kw)
 
 
 def run_ipm(case):
@@ -484,17 +500,24 @@ def judge_ipm(case, out, orc):
     st = out["status"]
     c, A, b = case["c"], case["A"], case["b"]
     x = out["solution"]
+    eps = case.get("eps") or 1e-8
     if st == "OPTIMAL":
         if orc[0] != "OPTIMAL":
             return f"OPTIMAL but the exact verdict is {orc[0]}"
-        if any(not math.isfinite(v) for v in x) or any(v < -1e-6 for v in x):
+        ftol = max(1e-6, 10 * eps)      # the gate gives eps-feasibility (C03_ipm_gate)
+        if any(not math.isfinite(v) for v in x) or any(v < -ftol for v in x):
             return f"OPTIMAL point not >= 0: {x}"
         for i, row in enumerate(A):
             lhs = sum(a * v for a, v in zip(row, x))
-            if lhs > b[i] + 1e-6 * (1 + abs(b[i])):
+            if lhs > b[i] + ftol * (1 + abs(b[i])):
                 return f"OPTIMAL point violates row {i}: {lhs} > {b[i]}"
         opt = float(orc[1])
-        if abs(out["objective"] - opt) > 1e-5 * (1 + abs(opt)):
+        otol = 1e-5 * (1 + abs(opt))
+        if eps > 1e-8 and out.get("xyz"):
+            # "within its tolerance": the explicit gap bound of C03_ipm_gate, eps * (|y|_1 + N + |x|_1 + |x*|_1), with |x*|_1 <= |x|_1 + |b|_1 + 1 assumed
+            xx, yy, _ = out["xyz"]
+            otol = max(otol, 2 * eps * (sum(map(abs, yy)) + len(xx) + 2 * sum(map(abs, xx)) + sum(map(abs, b)) + 1))
+        if abs(out["objective"] - opt) > otol:
             return f"OPTIMAL objective {out['objective']} but the true optimum is {orc[1]}"
         cx = sum(a * v for a, v in zip(c, x))
         if abs(cx - out["objective"]) > 1e-7 * (1 + abs(cx)):
@@ -527,7 +550,7 @@ def coq_ipm_case(case, out):
     x, y, z = out["xyz"]
     w = [v if case["minimize"] else -v for v in case["c"]]
     return "(mkI {e} {A} {b} {w} {xs} {ss} {y} {zx} {zs})".format(
-        e=cq(Fraction(1000001, 10 ** 14)), A=clist(case["A"], lambda r: clist(r, _q)), b=clist(case["b"], _q), w=clist(w, _q),
+        e=cq(Fraction(case.get("eps") or 1e-8).limit_denominator(10 ** 16) * Fraction(1000001, 1000000)), A=clist(case["A"], lambda r: clist(r, _q)), b=clist(case["b"], _q), w=clist(w, _q),
         xs=clist(x[:n], _q), ss=clist(x[n:], _q), y=clist(y, _q), zx=clist(z[:n], _q), zs=clist(z[n:], _q))
 
 
@@ -677,6 +700,11 @@ def run(ctx: Ctx):
             gate_meta.append((case, out))
     gate_bad = ctx.coq_check("gate", IMPORTS, "ipm_case", "gate_case", gate_cases, shard=60)
 
+    # ---- round-2 hardening families (sizes, magnitudes, option sweeps, types, aliasing, rare histories)
+    from harness.props import C03_hard
+
+    C03_hard.run_hard(ctx)
+
     # ---- something no longer checks but the oracle found no failing input: search, then report
     if (disagree or cert_disagree or gate_bad or ctx.broken) and not ctx.violations:
         found = False
@@ -712,8 +740,27 @@ def run(ctx: Ctx):
 
 def replay(obj):
     kind = obj.get("kind")
+    if kind in ("types", "alias"):
+        from harness.props import C03_hard as H
+
+        case = {"c": obj["c"], "A": obj["A"], "b": obj["b"], "minimize": obj.get("minimize", True), "max_iter": None}
+        probs = (H.check_types if kind == "types" else H.check_alias)(case)
+        print("\n".join(probs) or "ok")
+        return 1 if probs else 0
+    if kind == "simplex" and obj.get("expect"):
+        from harness.props import C03_hard as H
+
+        case = {"c": obj["c"], "A": obj["A"], "b": obj["b"], "minimize": obj.get("minimize", True), "max_iter": obj.get("max_iter"), "expect": obj["expect"]}
+        out, bad = H._work_construct(case)
+        print("solve_lp:", {k: out.get(k) for k in ("status", "objective", "iterations")}, "expected by construction:", obj["expect"])
+        print("judgement:", bad or "ok")
+        return 1 if bad else 0
     if kind == "simplex":
         case = {"c": obj["c"], "A": obj["A"], "b": obj["b"], "minimize": obj.get("minimize", True), "max_iter": obj.get("max_iter")}
+        if obj.get("eps") is not None:
+            case["eps"] = obj["eps"]
+        if max(len(case["c"]), len(case["b"])) > 10:
+            case["oracle"] = "exact_simplex"
         out, orc, bad = _work(case)
         print("solve_lp:", out)
         print("exact verdict:", orc)
@@ -721,6 +768,9 @@ def replay(obj):
         return 1 if bad else 0
     if kind == "ipm":
         case = {"c": obj["c"], "A": obj["A"], "b": obj["b"], "minimize": obj.get("minimize", True)}
+        for k in ("max_iter", "eps"):
+            if obj.get(k) is not None:
+                case[k] = obj[k]
         out, orc, bad = _work_ipm((case, "replay"))
         print("solve_lp_interior:", {k: v for k, v in out.items() if k != "xyz"})
         print("exact verdict:", orc)
